@@ -144,8 +144,9 @@ def get_constraint_pre_removed_options(choice_constraint: ChoiceConstraint, perm
         return []
 
     # For permutations, if there are more choices that the max nr of options, there is no way to make a permutation
+    # We can only be sure of this for choices that are permanent (i.e. always active together)
     if choice_constraint.type == ChoiceConstraintType.PERMUTATION:
-        n_dec = len(choice_constraint.nodes)
+        n_dec = len([node for node in choice_constraint.nodes if node in permanent_nodes])
         n_opt_max = max([len(options) for options in choice_constraint.options])
 
         # Remove all options if there are more choices than the max nr of options
